@@ -89,7 +89,7 @@ def plan(prop, tier, seed, escalate=False):
     if tier == 'thorough':
         bound, maxruns, nsample, walks, wbound = 3, 20000, 192, 300, 3
     else:
-        bound, maxruns, nsample, walks, wbound = 2, 2000, 48, 40, 2
+        bound, maxruns, nsample, walks, wbound = 2, 1500, 40, 30, 2
     if escalate:
         maxruns *= 3; walks *= 3
     jobs = []
